@@ -481,12 +481,14 @@ class Scenario(object):
         for k in range(cfg.get('preload', 0)):
             m = 80 + k
             env = self.make_env(m)
-            raw = self.inner.write(env.copy(), CLOCK.now)
+            # (preload_ts: how long before the start each one became due - a backlog listed in another order than that of its times)
+            pts = CLOCK.now - (cfg.get('preload_ts') or [0] * (k + 1))[k]
+            raw = self.inner.write(env.copy(), pts)
             sid = c.sid(raw)
             c.rcpts[sid] = list(env.recipients)
             c.stored.add(sid)
             c.content2id.setdefault(content_key(env), sid)
-            c.log(t='store', op='write', id=sid, ts=int(CLOCK.now), n=len(env.recipients), sender=1, bounce=0, now=c.now())
+            c.log(t='store', op='write', id=sid, ts=int(pts), n=len(env.recipients), sender=1, bounce=0, now=c.now())
             c.log(t='enq_ret', msg=m, ids=[sid], now=c.now())
         self.pending_msgs = list(range(1, cfg.get('nmsgs', 1) + 1))
         self.flushes = cfg.get('flush', 0)
